@@ -45,8 +45,20 @@ func (k Keeper) HandleRelay(ctx sdk.Ctx, relay pc.Relay) (*pc.RelayResponse, sdk
 	// retrieve the nonNative blockchains your node is hosting
 	hostedBlockchains := k.GetHostedBlockchains()
 
-	// ensure the validity of the relay
-	maxPossibleRelays, err := relay.Validate(ctx, k.posKeeper, k.appKeeper, k, hostedBlockchains, sessionBlockHeight, servicerNode)
+	// ensure the validity of the relay and record its proof as one step with respect to other
+	// relays served from the same evidence store
+	_, err := func() (sdk.BigInt, sdk.Error) {
+		servicerNode.EvidenceStore.LockRelays()
+		defer servicerNode.EvidenceStore.UnlockRelays()
+		maxPossibleRelays, err := relay.Validate(ctx, k.posKeeper, k.appKeeper, k, hostedBlockchains, sessionBlockHeight, servicerNode)
+		if err != nil {
+			return maxPossibleRelays, err
+		}
+		pc.SimYield("relay/validated")
+		// store the proof before execution, because the proof corresponds to the previous relay
+		relay.Proof.Store(maxPossibleRelays, servicerNode.EvidenceStore)
+		return maxPossibleRelays, nil
+	}()
 	if err != nil {
 		if pc.GlobalPocketConfig.RelayErrors {
 			ctx.Logger().Error(
@@ -69,9 +81,6 @@ func (k Keeper) HandleRelay(ctx sdk.Ctx, relay pc.Relay) (*pc.RelayResponse, sdk
 		}
 		return nil, err
 	}
-	pc.SimYield("relay/validated")
-	// store the proof before execution, because the proof corresponds to the previous relay
-	relay.Proof.Store(maxPossibleRelays, servicerNode.EvidenceStore)
 	pc.SimYield("relay/stored")
 	// attempt to execute
 	respPayload, err := relay.Execute(hostedBlockchains, &servicerNodeAddr)
